@@ -285,7 +285,7 @@ def core_skips(repo, res):
     from vlib import rules_skips as SK, tables
 
     n = SK.skips_rule(repo, res, tables.load("skips")["row"], only=C02_CORES)
-    res.floor("SKIPS", n, 14)
+    res.floor("SKIPS", n, 12)
 
 
 def run(repo, res, tier):
@@ -296,16 +296,16 @@ def run(repo, res, tier):
     arena_immut(repo, res, tier)
     postorder(repo, res)
     n_tc = common.run_traversals(repo, res, flows=flows_table())
-    res.floor("TC", res.count("TC"), 93)
-    res.floor("RP", res.count("RP"), 89)
+    res.floor("TC", res.count("TC"), 51)
+    res.floor("RP", res.count("RP"), 52)
     common.discover_traversals(repo, res)
     RPL.tr_check(repo, res)
-    res.floor("TR", res.count("TR"), 12)
+    res.floor("TR", res.count("TR"), 6)
     RPL.phase_check(repo, res)
     ff_regex_inputs(repo, res)
     ff_inp_from_input(repo, res)
     fallback_index(repo, res)
-    res.floor("FF", res.count("FF"), 32)
+    res.floor("FF", res.count("FF"), 17)
     RPL.from_grammar_order(repo, res)
     # Regex::from_valid_grammar compiles the validated expression in the validated arena
     fq = "regex::Regex::from_valid_grammar"
